@@ -20,6 +20,7 @@ PROFILE = {
     "p_retryable": 0.9,
     "max_dur": 64,
     "multi_call": (1, 2),
+    "classifier_time": 0.25,
 }
 
 
